@@ -623,6 +623,55 @@ def run(prog, pid, clauses):
         out.append(ob("reset-precedes-every-statement-parse", not problems, dict(call_sites=sites, offenders=problems),
                       {view.methods[m].key for m in ("process_line", "parse_data") if m in view.methods}, pid))
 
+    if "ply-cache-settings" in clauses:
+        # C20: PLY validates the cached tables against the grammar signature and regenerates them when they do not
+        # match - unless the caller opts out (optimize=True skips the check, a foreign tabmodule / picklefile reads
+        # other tables, write_tables / outputdir / check_recursion change where tables come from).  The repository's
+        # precondition for A-PLY is therefore: yacc.yacc and lex.lex are called with the cache-related arguments at
+        # their defaults.
+        allowed = {"yacc": {"module", "debug", "debuglog", "errorlog"}, "lex": {"object", "module", "debug", "debuglog", "errorlog"}}
+        bad, seen_calls, funcs = [], {"yacc": 0, "lex": 0}, set()
+        for mod, tree in prog.trees.items():
+            if not mod.startswith(PKG):
+                continue
+            for fn in ast.walk(tree):
+                if not isinstance(fn, ast.FunctionDef):
+                    continue
+                for n in ast.walk(fn):
+                    if isinstance(n, ast.Call):
+                        p = attr_path(n.func)
+                        if p in (("yacc", "yacc"), ("lex", "lex")) or (p and len(p) == 3 and p[:2] == ("ply", "yacc") and p[2] == "yacc"):
+                            kind = "yacc" if p[-1] == "yacc" else "lex"
+                            seen_calls[kind] += 1
+                            funcs.add("%s.%s" % (mod[len(PKG) + 1:], fn.name))
+                            if n.args:
+                                bad.append("%s.%s line %d: positional arguments to %s.%s" % (mod, fn.name, n.lineno, kind, kind))
+                            for k in n.keywords:
+                                if k.arg is None or k.arg not in allowed[kind]:
+                                    bad.append("%s.%s line %d: %s.%s(..., %s=...) overrides PLY's table-cache handling" % (mod, fn.name, n.lineno, kind, kind, k.arg))
+                                if k.arg == "debug" and not (isinstance(k.value, ast.Constant) and k.value.value is False):
+                                    bad.append("%s.%s line %d: debug is not the constant False" % (mod, fn.name, n.lineno))
+                        # nobody else reads or writes the table module
+                    if isinstance(n, (ast.Import, ast.ImportFrom)):
+                        names = [a.name for a in n.names] + ([n.module] if isinstance(n, ast.ImportFrom) and n.module else [])
+                        if any("parsetab" in (x or "") for x in names):
+                            bad.append("%s imports the generated table module directly (line %d)" % (mod, n.lineno))
+            for n in ast.walk(tree):
+                if isinstance(n, (ast.Import, ast.ImportFrom)):
+                    names = [a.name for a in n.names] + ([n.module] if isinstance(n, ast.ImportFrom) and n.module else [])
+                    if mod != PKG + ".parsetab" and any("parsetab" in (x or "") for x in names):
+                        bad.append("%s imports the generated table module directly (line %d)" % (mod, n.lineno))
+        # PLY takes the grammar from the docstrings of the p_* methods: every p_* attribute of the parser class must be
+        # a rule (docstring with a production) - a helper named p_... without one makes table generation fail
+        for m, fref in view.methods.items():
+            if m.startswith("p_") and m != "p_error":
+                doc = ast.get_docstring(fref.node)
+                if not doc or ":" not in doc:
+                    bad.append("%s is named like a grammar rule but has no production docstring (%s)" % (m, view.where(fref, fref.node)))
+        if seen_calls["yacc"] != 1:
+            bad.append("expected exactly one yacc.yacc call on the construct path, found %d" % seen_calls["yacc"])
+        out.append(ob("ply-table-cache-arguments-at-defaults", not bad, dict(offenders=sorted(set(bad)), calls=seen_calls), funcs, pid))
+
     if "token-text-only-through-upper" in clauses:
         # C05: the token-typing functions may look at the text of a word only through its upper-case form, or in ways
         # that do not depend on letter case (length, punctuation tests, trailing comma, the symbol table whose keys
